@@ -10,10 +10,13 @@ EXTENDS Policy, SequencesExt, FiniteSets
 
 IsPrefix2(p, s) == Len(p) <= Len(s) /\ SubSeq(s, 1, Len(p)) = p
 
-\* ---- ignore: path form (a subtree of the source) or name form (every entry with a
-\* component of that name below apparmor.d)
+\* ---- ignore ("one ignore by line, it can be a profile name or a directory to ignore"): path form (a
+\* subtree of the source) or name form: a PROFILE (an entry of groups/<g>/ or profiles-*-*/) with a
+\* component of that name. A name entry does not reach abstractions, tunables or mappings that happen
+\* to share the name (the implementation deletes by name over the whole tree: on the shipped lists the
+\* two readings coincide, a new entry such as "fusermount" would lose abstractions/app/fusermount).
 IgnoredBy(e, g) == IF g.path THEN IsPrefix2(g.segs, <<"apparmor.d">> \o e.segs)
-                   ELSE \E i \in DOMAIN e.segs : e.segs[i] = g.name
+                   ELSE e.kind \in {"group", "profiles"} /\ \E i \in DOMAIN e.segs : e.segs[i] = g.name
 Ignored(e, ign) == \E i \in DOMAIN ign : IgnoredBy(e, ign[i])
 
 \* ---- merge: groups/<g>/<x..> and profiles-*-*/<x..> are moved to the root
